@@ -68,6 +68,25 @@ Flatten(v) ==
   IF v.k = "arr" THEN v.vals
   ELSE LET F[i \in 0..Len(v.items)] == IF i = 0 THEN <<>> ELSE F[i - 1] \o Flatten(v.items[i]) IN F[Len(v.items)]
 
+\* A dictionary value is a MAPPING: the implementation looks its entries up by key, so a member may list its keys in any
+\* order, and the flat vector follows the SPACE's key order (two different members can then never flatten alike).
+Item(v, key) == v.items[CHOOSE i \in 1..Len(v.keys) : v.keys[i] = key]
+SameKeys(sp, v) == /\ Len(v.keys) = Len(sp.keys) /\ Len(v.items) = Len(v.keys)
+                   /\ {v.keys[i] : i \in 1..Len(v.keys)} = {sp.keys[i] : i \in 1..Len(sp.keys)}
+                   /\ Cardinality({v.keys[i] : i \in 1..Len(v.keys)}) = Len(v.keys)
+RECURSIVE FlattenIn(_, _)
+FlattenIn(sp, v) ==
+  IF v.k = "arr" THEN v.vals
+  ELSE IF sp.k = "Dict"
+    THEN LET F[i \in 0..Len(sp.keys)] == IF i = 0 THEN <<>> ELSE F[i - 1] \o FlattenIn(sp.subs[i], Item(v, sp.keys[i])) IN F[Len(sp.keys)]
+    ELSE LET F[i \in 0..Len(v.items)] == IF i = 0 THEN <<>> ELSE F[i - 1] \o FlattenIn(sp.subs[i], v.items[i]) IN F[Len(v.items)]
+\* well-formed for FlattenIn: the structure of v follows sp up to the order of dictionary keys
+RECURSIVE Shaped(_, _)
+Shaped(sp, v) ==
+  CASE sp.k = "Tuple" -> v.k = "tup" /\ Len(v.items) = Len(sp.subs) /\ \A i \in 1..Len(sp.subs) : Shaped(sp.subs[i], v.items[i])
+    [] sp.k = "Dict" -> v.k = "dict" /\ SameKeys(sp, v) /\ \A i \in 1..Len(sp.keys) : Shaped(sp.subs[i], Item(v, sp.keys[i]))
+    [] OTHER -> v.k = "arr"
+
 \* equality of spaces = equality of structure and parameters = equality of terms
 Eq(a, b) == a = b
 
